@@ -127,7 +127,7 @@ class C01(Prop):
     id = "C01"
     lean_module = "ProductMD.Properties.C01"
     quick_budget = 560
-    thorough_budget = 20000
+    thorough_budget = 16000     # ~8 min
     rule = ("generated compose descriptions (all release/compose types, labels, layered/internal, forests to depth 4 with all variant "
             "types, layered-product releases, dashed top-level UIDs, child arches within the parent's, any subset of the 14 categories, "
             "stray/empty paths) built through the public API; oracle on the real library: dumps -> loads -> every public attribute "
